@@ -200,6 +200,7 @@ func runC20(res *Result, tier string, seed uint64, driver string) {
 		same("is", func(x error) string { return isSX(x, refErrs).String() })
 		same("verbose", func(x error) string { return fmt.Sprintf("%+v", x) })
 	}
+	c20LongTexts(res, rig)
 	// nil passes through
 	res.OracleEvals["C20.nil"]++
 	if got, code, _ := rig.roundTrip(nil); got != nil || code != codes.OK {
@@ -232,4 +233,51 @@ func runC20(res *Result, tier string, seed uint64, driver string) {
 		res.Samples = append(res.Samples, s)
 	}
 	_ = errors.New
+}
+
+// c20LongTexts: Error() texts of several KiB made of multi-byte runes at every byte alignment
+// (anything that caps, cuts or windows the status message or a detail lands inside a rune):
+// the caller must still receive the error a direct transfer gives.  Direct oracle only.
+func c20LongTexts(res *Result, rig *grpcRig) {
+	n := 0
+	for _, unit := range []string{"é", "日", "a", "𝛑"} {
+		for _, lead := range []string{"", "x", "xy", "xyz"} {
+			for _, k := range []int{300, 520, 1100, 4100, 17000} {
+				text := lead + strings.Repeat(unit, k)
+				for _, mk := range []func(string) error{
+					func(t string) error { return errors.New(t) },
+					func(t string) error { return errors.Wrap(fmt.Errorf("%s", t), "ctx") },
+					func(t string) error { return extgrpc.WrapWithGrpcCode(errors.Newf("%s", t), codes.NotFound) },
+				} {
+					e := mk(text)
+					n++
+					c := &Case{ID: fmt.Sprintf("long%d", n), Err: e, NoModel: true, Rec: &R{Op: "special:longtext", In: []string{fmt.Sprintf("%q x %d after %q", unit, k, lead)}}}
+					c.Cmd = L(Sym("special"), Str("longtext"), Str(unit), Str(lead), Nat(k), Nat(n))
+					got, _, _ := rig.roundTrip(e)
+					res.OracleEvals["C20.longtext"]++
+					if got == nil {
+						res.fail(c, "C20.delivered", "the caller received no error", "C20:lost")
+						continue
+					}
+					direct, okd := hopsReal(e, 1)
+					if !okd {
+						continue
+					}
+					for _, f := range []struct {
+						name string
+						f    func(error) string
+					}{
+						{"tree", func(x error) string { return treeSX(x).String() }},
+						{"enc", func(x error) string { return encSX(x).String() }},
+						{"verbose", func(x error) string { return fmt.Sprintf("%+v", x) }},
+					} {
+						if a, b := f.f(got), f.f(direct); a != b {
+							res.fail(c, "C20.equals_direct_transfer", fmt.Sprintf("%s differs for a %d-byte text: via gRPC %.120q direct %.120q", f.name, len(text), a, b), "C20:"+f.name)
+							break
+						}
+					}
+				}
+			}
+		}
+	}
 }
